@@ -115,17 +115,12 @@ Example raw_roundtrip_controlled_by_nonvacuous :
   /\ from_dict ex_rows ex_bases (raw ex_required ex_rx) = OK ex_rx /\ raw_rt_ok (OK ex_rx) ex_rx.
 Proof. exact ex_controlled_hyp. Qed.
 
-(* repaired on the current tree (formerly refuted): Align keeps `delay` *)
-Example raw_roundtrip_Align_example :
+(* still false on the current tree: Gate.raw drops Align's `delay` (open known finding raw:differs:Align) *)
+Theorem raw_roundtrip_refuted_Align : exists g',
   construct ex_bases ex_Align [VA (AInt 1); VA (AInt 3)] [] = OK ex_align
-  /\ raw_rt_ok (from_dict ex_rows ex_bases (raw ex_required ex_align)) ex_align
-  /\ gparams ex_align = [VA (AInt 3)].
-Proof. exact ex_align_roundtrips. Qed.
-
-Theorem historical_Align_delay_lost_before_repair : exists g',
-  from_dict ex_rows ex_bases (raw old_required ex_align) = OK g'
+  /\ from_dict ex_rows ex_bases (raw ex_required ex_align) = OK g'
   /\ gparams ex_align = [VA (AInt 3)] /\ gparams g' = [VA (AInt 0)].
-Proof. exact historical_align_delay_lost_without_delay_key. Qed.
+Proof. exact ex_align_delay_lost. Qed.
 
 Theorem circuit_dict_roundtrip_refuted : exists c c',
   ex_basis_circuit = OK c
